@@ -1,4 +1,4 @@
-CONSTANTS MaxDrv = 2  MaxDrvRev = 2  SayLens = {0, 1}  MaxPrints = 1  MaxPrints3 = 1  PrintLens = {1, 3}  RingCap = 6  Bug = "Relink"  Emit = FALSE
+CONSTANTS MaxDrv = 2  MaxDrvRev = 2  MaxFont = 2  SayLens = {0, 1}  MaxPrints = 1  MaxPrints3 = 1  PrintLens = {1, 3}  RingCap = 6  Bug = "Relink"  Emit = FALSE
 CONSTANT Families = {"sort", "outcome", "pairs"}
 CONSTANT Orders <- MCOrders3
 INIT Init
